@@ -156,18 +156,20 @@ P("C11", CACHE_ASS)
 H("C11", "c11_clear_seq", "cache::sync", ["Cache::clear", "LFUPolicy::clear", "ShardedMap::clear", "Metrics::clear (call site)", "CacheProcessor::handle_clear_event", "CacheCleaner::clean", "CacheCleaner::handle_item", "Cache::get", "Cache::len"],
   "arbitrary quiescent state with <= 2 residents (no TTL) plus optionally one buffered New item; clear(), then the processor handles the clear signal", timeout=1800)
 H("C11", "c11_reuse_after_clear", "cache::sync", ["Cache::clear", "ShardedMap::clear", "Cache::try_update", "CacheProcessor::handle_item(New)", "CacheProcessor::handle_cleanup_event", "ShardedMap::try_cleanup", "ExpirationMap::*"],
-  "one resident with an arbitrary TTL <= 4 s; clear(); the key is re-inserted <= 2 s later with an arbitrary TTL or none; cleanup tick <= 8 s later", timeout=2400, mem_gb=20)
+  "one resident with an arbitrary TTL <= 4 s; clear(); the key is re-inserted <= 2 s later with an arbitrary TTL or none; cleanup tick <= 8 s later", timeout=7200, mem_gb=50, tier="thorough")
 # ---- C09 (cache level)
 IDX["C09"]["assumptions"] += [CHAN, ADDC, MREC, PARK, ARCD, "Cache::try_insert_in itself cannot be compiled by Kani (its select! builds a dyn SelectHandle whose vtable reaches thread-locals): insert_if_present is decided through its pre-select half Cache::try_update(.., only_update = true); the closed-flag test and the enqueue are by reading"]
 H("C09", "c09_if_present_api", "cache::sync", CLI, "arbitrary quiescent state with <= 2 residents; optionally a buffered, not yet applied New item for the same key; insert_if_present's client half with arbitrary key/cost and symbolic validator answer", timeout=1800)
 H("C09", "c09_client_insert", "cache::sync", CLI, CB2 + "; asserts vetoed / absent-key writes leave the store untouched", timeout=1800, cover_tags=["client"], alias_of="c02_client_insert")
 # ---- C18 (cache level)
 IDX["C18"]["assumptions"] += [CHAN, ADDC, MREC, PARK, ARCD]
-H("C18", "c18_cache_isolation", "cache::sync", ["Cache::get", "Cache::get_mut", "Cache::get_ttl", "Cache::try_update", "Cache::try_remove", "CacheProcessor::handle_item", "KeyBuilder::build_key"],
-  "a key builder that forces two keys onto one index hash with different non-zero conflict hashes; first key resident with arbitrary TTL; lookups / insert / remove of the second key, processed to quiescence", timeout=1800)
+for op in ("lookup", "insert", "remove"):
+    H("C18", "c18_cache_isolation_" + op, "cache::sync", ["Cache::get", "Cache::get_mut", "Cache::get_ttl", "Cache::try_update", "Cache::try_remove", "CacheProcessor::handle_item", "KeyBuilder::build_key"],
+      "a key builder that forces two keys onto one index hash with different non-zero conflict hashes; first key resident with arbitrary TTL; " + op + " of the second key, processed to quiescence", timeout=1800, mem_gb=20, cover_tags=[op])
 # ---- C20
 P("C20", CACHE_ASS + [RNG, "std::thread::spawn is stubbed by panic!() in c20_finalize_rejects_zero (the three validation errors return before any thread is spawned; what finalize does after validation is outside)"])
-H("C20", "c20_finalize_rejects_zero", "cache::sync", ["CacheBuilder::finalize", "CacheBuilder::new_with_key_builder", "CacheBuilderCore::set_buffer_size", "CacheBuilderCore::set_hasher"], "arbitrary num_counters, max_cost, buffer size with at least one of them zero", timeout=900)
+for tag in ("n0", "mc0", "bs0"):
+    H("C20", "c20_finalize_rejects_" + tag, "cache::sync", ["CacheBuilder::finalize", "CacheBuilder::new_with_key_builder", "CacheBuilderCore::set_buffer_size", "CacheBuilderCore::set_hasher"], "one of num_counters / max_cost / buffer size is a concrete zero (so that validation returns before the construction code), the other two arbitrary", timeout=900, cover_tags=[tag])
 H("C20", "c20_closed_is_inert", "cache::sync", ["Cache::get", "Cache::get_mut", "Cache::try_remove", "Cache::clear", "Cache::wait", "Cache::close"], "arbitrary quiescent state with <= 2 residents, closed flag set, arbitrary key", timeout=1800)
 H("C20", "c20_sketch_new_widths", "sketch", ["CountMinSketch::new", "CountMinSketch::increment", "CountMinSketch::estimate"], "num_counters symbolic in [1, 65536] (includes 1..70, powers of two or not)", timeout=900, alias_of="c13_sketch_new_widths")
 # ---- C10
@@ -233,12 +235,12 @@ P("C19", [LOCKS, CLOCK, MREC, ARCD, WIREA, "in c19_async_tick ExpirationMap::try
           "NOT decided: AsyncCache::{insert, remove, wait, clear, close}, the task loops, executors, wakers, polling order, futures::select!, async_io::Timer (Kani cannot execute them)"])
 AF = ["cache::async::CacheProcessor::handle_insert_event", "handle_item (macro instantiated for the async Item/processor)", "cache::async::CacheProcessor::handle_cleanup_event", "ShardedMap::try_cleanup_async", "AsyncLFUPolicy::{update, remove, cost, contains}"]
 H("C19", "c19_async_proc_update_delete", "cache::r#async", AF, "async processor, <= 1 resident, arbitrary key: one Update or Delete item; same assertions as the sync flavour", timeout=1800, features="sync,async", module_override="cache::r#async::verif_harness::both")
-H("C19", "c19_async_tick", "cache::r#async", AF, "async processor; one entry resident or not; the expiry index hands out nothing or one arbitrary listing (stand-in); cleanup tick <= 6 s later through handle_cleanup_event -> try_cleanup_async", timeout=3600, mem_gb=44, features="sync,async", module_override="cache::r#async::verif_harness::both")
+H("C19", "c19_async_tick", "cache::r#async", AF, "async processor; one entry resident or not; the expiry index hands out nothing or one arbitrary listing (stand-in); cleanup tick <= 6 s later through handle_cleanup_event -> try_cleanup_async", timeout=7200, mem_gb=50, tier="thorough", features="sync,async", module_override="cache::r#async::verif_harness::both")
 H("C19", "c19_async_new_wiring", "cache::r#async", AF, WIREB + "; async processor", timeout=1800, features="sync,async", module_override="cache::r#async::verif_harness::both")
 
 # the sweep through the async flavour (a plain loop; the sync try_cleanup's iterator chain needs > 40 GB and is thorough-only)
 for pid, nm in (("C05", "c05_async_cleanup"), ("C04", "c04_async_cleanup"), ("C11", "c11_async_cleanup"), ("C03", "c03_async_cleanup")):
-    H(pid, nm, "cache::r#async", AF, "async processor, <= 1 resident with or without TTL, cleanup tick <= 6 s later through try_cleanup_async: only elapsed TTLs are reclaimed (never an entry without TTL), overdue ones always", timeout=3600, mem_gb=44, features="sync,async", module_override="cache::r#async::verif_harness::both", alias_of="c19_async_tick")
+    H(pid, nm, "cache::r#async", AF, "async processor, <= 1 resident with or without TTL, cleanup tick <= 6 s later through try_cleanup_async: only elapsed TTLs are reclaimed (never an entry without TTL), overdue ones always", timeout=7200, mem_gb=50, tier="thorough", features="sync,async", module_override="cache::r#async::verif_harness::both", alias_of="c19_async_tick")
 
 SWF = ["ShardedMap::try_cleanup (the sweep's per-key decision and removal)", "ShardedMap::expiration", "ShardedMap::try_remove", "LFUPolicy::cost", "LFUPolicy::remove", "Time::is_expired", "Time::is_zero"]
 SWB = "one entry (with or without TTL, charged) resident or not; the expiry index hands out nothing or ONE arbitrary listing (any key, any conflict: proper or stale, due or not); sweep at an arbitrary instant <= 6 s later"
@@ -250,13 +252,19 @@ for pid, nm in (("C05", "c05_store_sweep"), ("C04", "c04_store_sweep"), ("C11", 
     else:
         H(pid, nm, "store", SWF, SWB, timeout=7200, mem_gb=44, tier="thorough")
 
+SWFA = ["ShardedMap::try_cleanup_async (the sweep's per-key decision and removal)", "ShardedMap::expiration", "ShardedMap::try_remove", "Time::is_expired", "Time::is_zero"]
+for pid, nm in (("C05", "c05_store_sweep_async"), ("C04", "c04_store_sweep_async"), ("C11", "c11_store_sweep_async"), ("C03", "c03_store_sweep_async"), ("C19", "c19_store_sweep_async")):
+    kw = {} if pid == "C05" else {"alias_of": "c05_store_sweep_async"}
+    H(pid, nm, "store", SWFA, SWB + "; the async flavour's sweep (a plain loop; the sync flavour's iterator chain is thorough-tier only); policy cost/remove are recorders", timeout=7200, mem_gb=50, tier="thorough", features="sync,async", **kw)
+
 P("PROBE", [])
 H("PROBE", "probe_new_n0_nottl", "cache::sync", [], "probe", timeout=1200, mem_gb=20)
 H("PROBE", "probe_new_n0_ttl", "cache::sync", [], "probe", timeout=1200, mem_gb=20)
 H("PROBE", "probe_new_n1_nottl", "cache::sync", [], "probe", timeout=1200, mem_gb=20)
 for i in "1234":
     H("PROBE", "probe_part" + i, "cache::sync", [], "probe", timeout=1200, mem_gb=12)
-H("PROBE", "c19_async_tick", "cache::r#async", [], "probe fs64", timeout=3000, mem_gb=28, features="sync,async", module_override="cache::r#async::verif_harness::both", fs_array=64)
+H("PROBE", "c05_store_sweep_async", "store", [], "probe minisat", timeout=3000, mem_gb=28, features="sync,async", kani_args=["--solver", "minisat"])
+H("PROBE", "c19_async_tick", "cache::r#async", [], "probe fewer checks", timeout=3000, mem_gb=28, features="sync,async", module_override="cache::r#async::verif_harness::both", kani_args=["--no-assertion-reach-checks", "--no-memory-safety-checks"])
 H("PROBE", "c06_proc_new", "cache::sync", [], "probe", timeout=3000, mem_gb=28, cover_tags=["new"])
 H("PROBE", "c06_proc_tick", "cache::sync", [], "probe", timeout=3000, mem_gb=28, cover_tags=["tick"])
 H("PROBE", "c07_add_rule_n2", "policy::sync", [], "probe", timeout=3000, mem_gb=28)
